@@ -45,6 +45,10 @@ def fake_get(url, *a, **k):
     if b == "notag_slow":
         time.sleep(0.4)
         return Resp({"name": "no tag here"})
+    if b == "longtag":
+        return Resp({"tag_name": "continuous-integration-nightly-snapshot-build"})
+    if b == "hugetag":
+        return Resp({"tag_name": "release-" + "a-" * 4000 + "x"})
     if b == "notag":
         return Resp({})
     if b == "list":
@@ -72,6 +76,57 @@ def fake_get(url, *a, **k):
     if b == "none":
         return Resp({"tag_name": "v0.0.1"})
     raise RuntimeError("unknown behaviour")
+
+
+# behaviours "srv:*" answer over a REAL socket (a local server in this process): what matters there is how the
+# client's transport behaves when the answer is incomplete, which a stubbed response object cannot show
+if behav.startswith("srv:"):
+    import socket
+
+    srv = socket.socket()
+    srv.bind(("127.0.0.1", 0))
+    srv.listen(4)
+    port = srv.getsockname()[1]
+    mode = behav[4:]
+
+    def serve():
+        while True:
+            try:
+                c, _ = srv.accept()
+            except OSError:
+                return
+            try:
+                c.recv(65536)
+                body = b'{"tag_name": "v99.0"}'
+                head = b"HTTP/1.1 200 OK\r\nContent-Type: application/json\r\nContent-Length: %d\r\nConnection: close\r\n\r\n"
+                if mode == "ok":
+                    c.sendall(head % len(body) + body)
+                    c.close()
+                elif mode == "stall_headers":
+                    threading.Event().wait()
+                elif mode == "stall_body":
+                    c.sendall(head % 1000)  # headers promise a body that never comes
+                    threading.Event().wait()
+                elif mode == "stall_midbody":
+                    c.sendall(head % 1000 + body[:9])
+                    threading.Event().wait()
+                elif mode == "close_midbody":
+                    c.sendall(head % 1000 + body[:9])
+                    c.close()
+                elif mode == "trickle":
+                    c.sendall(head % len(body))
+                    for ch in body:
+                        time.sleep(0.35)
+                        c.sendall(bytes([ch]))
+                    c.close()
+            except OSError:
+                pass
+
+    threading.Thread(target=serve, daemon=True).start()
+    real_get = requests.get
+
+    def fake_get(url, *a, **k):  # noqa: F811
+        return real_get("http://127.0.0.1:%d/releases/latest" % port, *a, **k)
 
 
 requests.get = fake_get
